@@ -10,6 +10,8 @@ pub fn to_listing(
     num_bytes_per_line: usize,
 ) -> CoreResult<HashMap<PathBuf, String>> {
     let mut listing = HashMap::new();
+    // (at least one byte per row, and no more than fit in a row that can still be padded)
+    let num_bytes_per_line = num_bytes_per_line.clamp(1, 4096);
 
     for file in ctx.tree().code_map.files() {
         let mut result = vec![];
